@@ -39,6 +39,14 @@ impl Numeric {
         Numeric::Rational(BigRat::ratio(&num.into(), &den.into()))
     }
 
+    /// True for a float NaN, which compares false against any bound.
+    pub fn is_nan(&self) -> bool {
+        match *self {
+            Numeric::Rational(_) => false,
+            Numeric::Float(f) => f.is_nan(),
+        }
+    }
+
     pub fn abs(&self) -> Numeric {
         match *self {
             Numeric::Rational(ref rational) => Numeric::Rational(rational.abs()),
